@@ -206,6 +206,7 @@ func setupFiles() map[string]bool {
 	w("f", "x y\nz\n")
 	w("g1", "g one\n")
 	w("g2", "g two {\n}\n")
+	w("g3", "import g1\n") // a later match of g* importing an earlier one again: a diamond, not a cycle
 	w("cyc1", "import cyc2\n")
 	w("cyc2", "import cyc1\n")
 	w("self", "q\nimport self\n")
@@ -272,7 +273,19 @@ func partA(rep *kit.Report, known map[string]bool) {
 		nl := len(lineAlpha)
 		var recL func(lines []string, local map[string]int64)
 		recL = func(lines []string, local map[string]int64) {
-			classify(rep, "lines", strings.Join(lines, "\n"), parseGuarded(rep, name, strings.Join(lines, "\n")), local, known)
+			resL := parseGuarded(rep, name, strings.Join(lines, "\n"))
+			classify(rep, "lines", strings.Join(lines, "\n"), resL, local, known)
+			if resL.err != nil && strings.Contains(resL.err.Error(), "Import cycle detected") {
+				cyclic := false
+				for _, l := range lines {
+					if l == "import cyc1" || l == "import self" || l == "import s" || strings.HasPrefix(l, "import \"n") {
+						cyclic = true // (these lines can close a cycle; no other line of the alphabet can)
+					}
+				}
+				if !cyclic {
+					rep.Violation("C10/lines/import-cycle-reported-without-a-cycle", "an import cycle is reported for an input none of whose imports is cyclic: "+resL.err.Error(), strCase{strings.Join(lines, "\n"), os.Getenv("V"), resL.err.Error()})
+				}
+			}
 			if len(lines) == M {
 				return
 			}
